@@ -46,8 +46,7 @@ func (m *Mutex) Lock() {
 	for !m.try(t) {
 		t.Block("Lock.wait", m.isFree)
 	}
-	t.AcqCnt++
-	t.AcqSeq = t.S.Seq()
+	t.Acquired()
 }
 
 func (m *Mutex) TryLock() bool {
@@ -123,8 +122,7 @@ func (m *RWMutex) Lock() {
 	for !m.tryW() {
 		t.Block("Lock.wait", func() bool { return !m.writer && m.readers == 0 })
 	}
-	t.AcqCnt++
-	t.AcqSeq = t.S.Seq()
+	t.Acquired()
 }
 
 func (m *RWMutex) Unlock() {
@@ -158,8 +156,7 @@ func (m *RWMutex) RLock() {
 	for !m.tryR() {
 		t.Block("RLock.wait", func() bool { return !m.writer })
 	}
-	t.AcqCnt++
-	t.AcqSeq = t.S.Seq()
+	t.Acquired()
 }
 
 func (m *RWMutex) RUnlock() {
